@@ -42,7 +42,7 @@ def owner_in(owner, prefixes=(), classes=()):
 PROPS = {
     "C01": {
         "theorems": ["C01_task_timing", "C01_unscheduled_parked"],
-        "profiles": [("core", 1.0)],
+        "profiles": [("core", 0.7), ("all", 0.3)],
         "relevant": lambda o: owner_in(o, ("task:", "problem")),
         "spec": "C01",
         "nontrivial": lambda s: any(d["op"] == "task" and (d.get("optional") or d.get("release") is not None
@@ -54,6 +54,38 @@ PROPS = {
                 "date, or is not a plain fixed-duration task; distinct = distinct script text",
         "assumptions": ["the task formulas emitted by the real code are those of the model (ENC, restricted to "
                         "owners task:* and problem)"],
+        "n": {"quick": 200, "thorough": 4000},
+    },
+    "C10": {
+        "theorems": ["C10_connective_raw", "C10_connective", "C10_optional", "C10_mandatory", "C10_forceApplyN",
+                     "C10_no_leak", "C10_constraint_part"],
+        "profiles": [("fol", 0.8), ("all", 0.2)],
+        "relevant": lambda o: owner_in(o, (), FOL_CLASSES) or o.startswith("constr:"),
+        "spec": "C10",
+        "exact": True,
+        "nontrivial": lambda s: any(d["op"] == "constraint" and d["c"][0] in
+                                    ("not", "or", "and", "xor", "implies", "ifThenElse", "forceApplyN") for d in s),
+        "rule": "scripts from the 'fol' profile: the six connectives and ConstraintFromExpression over built-in "
+                "task constraints (single- and multi-assertion ones), raw expressions and earlier connectives "
+                "(nesting grows with script length), optional constraints and ForceApplyN exact/min/max; non-trivial "
+                "= at least one connective or force-apply rule; distinct = distinct script text",
+        "assumptions": ["assertions emitted for constraints by the real code are those of the model (ENC, all constr:* owners), "
+                        "or logically equivalent to them on the script (z3, tier 2)"],
+        "n": {"quick": 200, "thorough": 3000},
+    },
+    "C02": {
+        "theorems": ["C02_no_overlap", "C02_load_le_one", "C02_cumulative_capacity", "C02_busy_span",
+                     "C02_selection_count", "C02_work_amount"],
+        "profiles": [("core", 0.5), ("resc", 0.3), ("all", 0.2)],
+        "relevant": lambda o: owner_in(o, ("req:", "worker:", "work:")),
+        "spec": "C02",
+        "nontrivial": lambda s: sum(1 for d in s if d["op"] == "require") >= 2,
+        "rule": "scripts drawn from the 'core' profile (workers with productivities 0..3, cumulative workers of size "
+                "2..5, selections of 2..5 workers x exact/min/max x n, static / dynamic / delayed requirements, work "
+                "amounts); non-trivial = at least two add_required_resource calls; distinct = distinct script text",
+        "assumptions": ["the requirement, non-overlap and work-amount formulas emitted by the real code are those of "
+                        "the model (ENC, owners req:*, worker:*, work:*)",
+                        "delay_in + early_out <= duration is the user's responsibility (DelaysFit)"],
         "n": {"quick": 200, "thorough": 4000},
     },
 }
@@ -131,13 +163,36 @@ def check_script(driver, script, spec, cfg=None):
         if x != y:
             res["decl_diffs"].append(f"declaration {i} {json.dumps(script[i], default=str)}: real={x} model={y}")
     rel, oth = relevant_diffs(out, spec["relevant"])
+    res["equiv"] = None
+    if (rel or oth) and out["solver"] is not None and not out["init_error"]:
+        # tier 2 of the correspondence: are the two assertion sets logically equivalent?
+        from harness import z3walk
+        sub = dict(subst_for(out["real"]))
+        sub.update(z3walk.token_alignment(out["py_raw"], out["lean_raw"]))
+        verdict, wit = sem.equivalence(list(out["solver"]._solver.assertions()), out["lean_raw"], sub)
+        res["equiv"] = verdict
+        if verdict == "equivalent":
+            rel, oth = [], []
+        elif verdict == "real_admits_more":
+            owners = [out["owners"][i] for i in wit.get("model_formulas_false", []) if i < len(out["owners"])]
+            if any(spec["relevant"](o) for o in owners) or not owners:
+                res["witness"] = {"direction": "the real code admits an interpretation the model rejects",
+                                  "violated_model_formulas": [out["lean_raw"][i] for i in wit.get("model_formulas_false", [])][:5],
+                                  "owners": owners[:5], "model": wit["model"]}
+        elif verdict == "real_admits_less":
+            res["witness"] = {"direction": "the real code rejects an interpretation the model admits",
+                              "violated_real_assertions": [out["py_raw"][i] for i in wit.get("real_assertions_false", [])][:5],
+                              "model": wit["model"]}
     res["rel"], res["oth"] = rel, oth
     if out["init_error"]:
         res["rel"].append("initialize raised on the real code: " + out["init_error"])
     if spec.get("spec") and out["solver"] is not None and not out["init_error"]:
         _, lines = driver.send_multi(f"(spec {spec['spec']})")
         try:
-            st, info = sem.find_counterexample(list(out["solver"]._solver.assertions()), lines, subst_for(out["real"]))
+            from harness import z3walk
+            sub2 = dict(subst_for(out["real"]))
+            sub2.update(z3walk.token_alignment(out["py_raw"], out["lean_raw"]))
+            st, info = sem.find_counterexample(list(out["solver"]._solver.assertions()), lines, sub2)
         except Exception as e:  # noqa: BLE001
             st, info = "error", {"error": f"{type(e).__name__}: {e}"}
         res["sem"] = (st, info)
@@ -177,8 +232,11 @@ def run_chunk(args):
                 summary["samples"].append({"label": label, "script": [pslib.to_line(x) for x in script][:12]})
             if r["oth"]:
                 summary["other"] += 1
+            if r.get("equiv") == "equivalent":
+                summary["dist"]["equivalent_rewrites"] = summary["dist"].get("equivalent_rewrites", 0) + 1
             if r["decl_diffs"] or r["rel"]:
-                summary["broken"].append({"label": label, "script": script,
+                summary["broken"].append({"label": label, "script": script, "equiv": r.get("equiv"),
+                                          "witness": r.get("witness"),
                                           "diffs": (r["decl_diffs"] + r["rel"])[:6]})
             if r["sem"] and r["sem"][0] == "found":
                 summary["violations"].append({"label": label, "script": script, "kind": "SEM", **r["sem"][1]})
@@ -248,6 +306,14 @@ def run_channels(prop, rep):
         seen.add(key)
         rep.violation({"property": prop, "kind": "SEM", "what": "the real code admits a schedule that violates the "
                        "documented meaning", **v}, True)
+    exact = spec.get("exact", False)
+    wit = [b for b in broken if b.get("witness") and
+           (exact or b["witness"]["direction"].startswith("the real code admits"))]
+    if wit and not viols and exact:
+        b = min(wit, key=lambda x: len(x["script"]))
+        rep.violation({"property": prop, "kind": "ENC+witness", "what": "the real constraint system differs from the "
+                       "model proved exact for this property; the witness interpretation separates them", **b}, True)
+        viols = [b]
     if broken and not viols:
         b = min(broken, key=lambda x: len(x["script"]))
         rep.notes.append(json.dumps(b["diffs"])[:1500])
